@@ -221,6 +221,66 @@ def other_constants():
     return c
 
 
+ATTR_ENUM = {"width": ".width", "depth": ".depth", "uint_maxval": ".uintMaxval", "max_count": ".maxCount", "num_reserved": ".numReserved",
+             "p": ".p", "seed": ".seed", "max_key_len": ".maxKeyLen"}
+
+
+def merge_attrs():
+    """for each class: the attributes its merge() compares (`self.X != other.X or …`) before raising TypeError, in source order"""
+    out = {}
+    for mod, cls, name in (("countmin", "CountMinLinear", "mergeAttrsLinear"), ("countmin", "CountMinLog16", "mergeAttrsLog16"), ("countmin", "CountMinLog8", "mergeAttrsLog8"),
+                           ("hyperloglog", "HyperLogLog", "mergeAttrsHll"), ("heavyhitters", "HeavyHitters", "mergeAttrsHH")):
+        src, tree = _parse(os.path.join(REPO, "sketchnu", mod + ".py"))
+        fn = None
+        for n in ast.walk(tree):
+            if isinstance(n, ast.ClassDef) and n.name == cls:
+                for m in n.body:
+                    if isinstance(m, ast.FunctionDef) and m.name == "merge":
+                        fn = m
+        if fn is None:
+            raise TranslateError(f"{cls}.merge not found")
+        guard = None
+        for st in fn.body:
+            if isinstance(st, ast.If) and st.body and isinstance(st.body[0], ast.Raise):
+                exc = st.body[0].exc
+                if isinstance(exc, ast.Call) and getattr(exc.func, "id", None) == "TypeError":
+                    guard = st.test
+                    break
+            elif not (isinstance(st, ast.Expr) and isinstance(st.value, ast.Constant)):
+                break  # anything before the guard other than the docstring: not the shape we model
+        if guard is None:
+            raise TranslateError(f"{cls}.merge: no leading `if …: raise TypeError`")
+        terms = guard.values if isinstance(guard, ast.BoolOp) and isinstance(guard.op, ast.Or) else [guard]
+        attrs = []
+        for t in terms:
+            ok = (isinstance(t, ast.Compare) and len(t.ops) == 1 and isinstance(t.ops[0], ast.NotEq)
+                  and isinstance(t.left, ast.Attribute) and isinstance(t.left.value, ast.Name) and t.left.value.id == "self"
+                  and isinstance(t.comparators[0], ast.Attribute) and isinstance(t.comparators[0].value, ast.Name)
+                  and t.comparators[0].value.id == "other" and t.comparators[0].attr == t.left.attr)
+            if not ok:
+                raise TranslateError(f"{cls}.merge: unsupported comparison `{ast.unparse(t)}`")
+            if t.left.attr not in ATTR_ENUM:
+                raise TranslateError(f"{cls}.merge compares attribute `{t.left.attr}`, which is not a modelled merge parameter")
+            attrs.append(ATTR_ENUM[t.left.attr])
+        out[name] = attrs
+    return out
+
+
+def render_merge_attrs():
+    L = ["/- GENERATED by harness/translate.py from the merge() methods of the current /repo source — do not edit. -/",
+         "import Model.MergeAttr", "namespace Sketchnu.Gen", ""]
+    errors = []
+    try:
+        ma = merge_attrs()
+        for name, attrs in ma.items():
+            L.append(f"def {name} : List Attr := [" + ", ".join(attrs) + "]")
+    except TranslateError as e:
+        errors.append(str(e))
+        L.append(f"-- TRANSLATION FAILED: {e}\n-- (no definitions emitted: Model.MergeCheck and Properties/C15.lean no longer build)")
+    L += ["", "end Sketchnu.Gen"]
+    return "\n".join(L) + "\n", errors
+
+
 def _lean_u64(v):
     return f"0x{v:016x}"
 
@@ -370,8 +430,12 @@ def run():
     thr, raw, bias = hll_tables()
     if _write_if_changed(os.path.join(GEN, "HllTables.lean"), render_tables(thr, raw, bias)):
         changed.append("HllTables.lean")
+    text, merr = render_merge_attrs()
+    if _write_if_changed(os.path.join(GEN, "MergeAttrs.lean"), text):
+        changed.append("MergeAttrs.lean")
     import kernels
     kch, kerr = kernels.run()
+    kerr = merr + kerr
     changed += kch
     return {"changed": changed, "fingerprints": fingerprints(), "kernel_errors": kerr}
 
